@@ -46,7 +46,55 @@ func runC18(c *Ctx) {
 	if shut != nil {
 		c18ShutdownLoop(c, shut)
 	}
+	c18Registry(c)
 	c18Refresh(c)
+}
+
+// c18Registry: the list of registered services is owned by the handler: it is
+// only ever extended by append(h.services, ...), or set to a fresh / nil slice
+// — never aliased to a slice the caller keeps (a variadic argument is the
+// caller's slice when it was spread with `svcs...`).
+func c18Registry(c *Ctx) {
+	c.L.Floor("C18.registry", 1)
+	n := 0
+	for _, f := range c.P.Funcs("service") {
+		core.EachInstr(f, func(in ssa.Instruction) {
+			st, ok := in.(*ssa.Store)
+			if !ok {
+				return
+			}
+			fa, ok := st.Addr.(*ssa.FieldAddr)
+			if !ok || core.NamedOf(fa.X.Type()) != "SignalHandler" || core.FieldName(fa) != "services" {
+				return
+			}
+			n++
+			okV, why := false, "the stored value is "+core.Describe(st.Val)
+			switch x := st.Val.(type) {
+			case *ssa.Call:
+				if b, isB := x.Call.Value.(*ssa.Builtin); isB && b.Name() == "append" {
+					if name, base, isF := core.IsLoadOfField(x.Call.Args[0]); isF && name == "services" && base == fa.X {
+						okV, why = true, "append(h.services, ...)"
+					}
+				}
+				if strings.HasPrefix(core.CalleeName(&x.Call), "slices.Clone") {
+					okV, why = true, "a clone"
+				}
+			case *ssa.Const:
+				okV, why = x.Value == nil, "nil"
+			case *ssa.MakeSlice:
+				okV, why = true, "a fresh slice"
+			case *ssa.Slice:
+				if _, isAl := x.X.(*ssa.Alloc); isAl {
+					okV, why = true, "a composite literal"
+				}
+			}
+			c.check(okV, "C18.registry", f, "h.services is extended by append or set to a fresh slice", st,
+				why+"; a stored caller-owned slice changes under the handler when the caller reuses it: services are shut down twice or never")
+		})
+	}
+	if n == 0 {
+		c.undecided("C18.registry", nil, "stores to SignalHandler.services", nil, "none found")
+	}
 }
 
 func c18Signal(c *Ctx, handle, shut *ssa.Function) {
